@@ -1003,7 +1003,7 @@ theorem condsKnown_cons {v : View} {tag arg : String} {sub rest : Sels} (h : con
   intro ht
   simpa [ht] using h.1.1
 
-theorem exec_erase {S : Schema} {F : Feats} (hA : Accepted S = true) (world : String → String → Option String)
+theorem exec_erase {S : Schema} {F : Feats} (hA : Accepted S = true) (world : String → String → Option (List String))
     (sels : Sels) : ∀ objT, S.notHidden F objT = true → condsKnown (view S F) sels = true →
       exec (view S F) world objT sels = exec (view (erase S F) top) world objT sels := by
   have hu := Accepted.nodup hA
@@ -1023,17 +1023,19 @@ theorem exec_erase {S : Schema} {F : Feats} (hA : Accepted S = true) (world : St
       | some s =>
         have hs := getField_closed hA ho hg
         have hsn := notHidden_of_visible hs.1
-        simp only [resolveCandidates_erase hA hsn]
+        simp only [View.resolveType, view_resolveCandidates, resolveCandidates_erase hA hsn]
         cases hw : world objT arg with
         | none => rfl
-        | some rt =>
+        | some claimed =>
           simp only
-          by_cases hcnt : (resolveCandidates S F s.ty.base).contains rt = true
-          · have hrt : S.visible F rt = true :=
-              spreadTypes_closed hA hsn rt (by simpa [resolveCandidates_eq_spreadTypes] using hcnt)
+          cases hfind : (resolveCandidates S F s.ty.base).find? (fun c => claimed.contains c) with
+          | none => rfl
+          | some rt =>
+            have hrt : S.visible F rt = true :=
+              spreadTypes_closed hA hsn rt
+                (by simpa [resolveCandidates_eq_spreadTypes] using List.mem_of_find?_eq_some hfind)
             have := ihs rt (notHidden_of_visible hrt) hcs
-            simp only [hcnt, ↓reduceIte, this]
-          · simp only [hcnt, Bool.false_eq_true, ↓reduceIte]
+            simp only [this]
     · simp only [hf, Bool.false_eq_true, ↓reduceIte]
       by_cases hoo : (tag == "on") = true
       · simp only [hoo, ↓reduceIte]
@@ -1047,7 +1049,7 @@ theorem exec_erase {S : Schema} {F : Feats} (hA : Accepted S = true) (world : St
           simp only [view_lookupRaw, view_fragApplies, lookupRaw_erase hu harg, fragApplies_erase hA ho harg, this]
       · simp only [hoo, Bool.false_eq_true, ↓reduceIte, ihs objT ho hcs]
 
-theorem exec_events_visible {S : Schema} {F : Feats} (hA : Accepted S = true) (world : String → String → Option String)
+theorem exec_events_visible {S : Schema} {F : Feats} (hA : Accepted S = true) (world : String → String → Option (List String))
     (sels : Sels) : ∀ objT, S.notHidden F objT = true →
       ∀ e ∈ exec (view S F) world objT sels, EventVisible S F e := by
   induction sels with
@@ -1068,14 +1070,17 @@ theorem exec_events_visible {S : Schema} {F : Feats} (hA : Accepted S = true) (w
           · exact getField_fieldVisible ho hg
           · cases hw : world objT arg with
             | none => simp [hw] at he
-            | some rt =>
-              simp only [hw] at he
-              by_cases hcnt : (resolveCandidates S F s.ty.base).contains rt = true
-              · have hrt : S.visible F rt = true :=
-                  spreadTypes_closed hA hsn rt (by simpa [resolveCandidates_eq_spreadTypes] using hcnt)
-                simp only [hcnt, ↓reduceIte] at he
+            | some claimed =>
+              simp only [hw, View.resolveType, view_resolveCandidates] at he
+              cases hfind : (resolveCandidates S F s.ty.base).find? (fun c => claimed.contains c) with
+              | some rt =>
+                have hrt : S.visible F rt = true :=
+                  spreadTypes_closed hA hsn rt
+                    (by simpa [resolveCandidates_eq_spreadTypes] using List.mem_of_find?_eq_some hfind)
+                simp only [hfind] at he
                 exact ihs rt (notHidden_of_visible hrt) e he
-              · simp only [hcnt, Bool.false_eq_true, ↓reduceIte, List.mem_singleton] at he
+              | none =>
+                simp only [hfind, List.mem_singleton] at he
                 subst he
                 exact hsn
       · simp only [hf, Bool.false_eq_true, ↓reduceIte] at he
